@@ -99,6 +99,33 @@ class C05Episode(Episode):
     def bound(self, r):
         """configuration-derived completion bound for a waiting request"""
         a = self.world.arbiter
+        if r.cmd in ('incr', 'decr') and r.wname:
+            # surplus workers are terminated together - one grace period
+            # (one more for a max_age round before it, and for each kill
+            # request that may already be terminating one of them) -, missing
+            # ones are spawned one warm-up apart
+            for wc in self.cfg['watchers']:
+                if wc['name'].lower() != r.wname.lower():
+                    continue
+                o = wc['opts']
+                np_ = max(o.get('numprocesses', 1), 5) + 3
+                g = max(o.get('graceful_timeout', 30.0), 1.0)
+                rounds = 1 + (1 if o.get('max_age') else 0)
+                for q in self.world.reqs:
+                    if q.cmd == 'kill' and q.dispatched and \
+                            q.disp_t is not None and \
+                            q.disp_t <= (r.disp_t or 0) + g:
+                        gk = (q.props or {}).get('graceful_timeout')
+                        if not isinstance(gk, (int, float)) or gk != gk:
+                            gk = g
+                        if q.disp_t + max(gk, g) + 1.0 >= (r.disp_t or 0):
+                            rounds += 1
+                # (the periodic check does not delay an accepted request:
+                # it either holds the slot - then the request is refused -
+                # or waits for it)
+                gt = max(float(o.get('graceful_timeout', 30.0)), 0.0)
+                return 0.6 + rounds * (gt + 0.25) + \
+                    (np_ + 1) * o.get('warmup_delay', 0)
         tot = 1.0
         n = 0
         for wc in self.cfg['watchers']:
